@@ -6,7 +6,7 @@ let bl f n d = if f n d then "1" else "0"
 let table : (string * (Model.z -> Model.z -> string)) list = [
   (* raw GMP primitives as specified in the trusted GmpSpec section *)
   "gmp.tdiv_q", one Model.mpz_tdiv_q; "gmp.tdiv_r", one Model.mpz_tdiv_r; "gmp.tdiv_qr", two Model.mpz_tdiv_qr;
-  "gmp.fdiv_q", one Model.mpz_fdiv_q; "gmp.fdiv_r", one Model.mpz_fdiv_r;
+  "gmp.fdiv_qr", two Model.mpz_fdiv_qr; "gmp.cdiv_qr", two Model.mpz_cdiv_qr; "gmp.fdiv_q", one Model.mpz_fdiv_q; "gmp.fdiv_r", one Model.mpz_fdiv_r;
   "gmp.cdiv_q", one Model.mpz_cdiv_q; "gmp.cdiv_r", one Model.mpz_cdiv_r; "gmp.mod", one Model.mpz_mod;
   "gmp.tdiv_q_ui", two Model.mpz_tdiv_q_ui; "gmp.tdiv_r_ui", two Model.mpz_tdiv_r_ui; "gmp.tdiv_ui", one Model.mpz_tdiv_ui;
   "gmp.cdiv_r_ui", two Model.mpz_cdiv_r_ui; "gmp.cdiv_ui", one Model.mpz_cdiv_ui;
